@@ -189,6 +189,7 @@ class ExpGens:
             s = z3.Solver()
             s.set("timeout", 20000)
             s.add(*self.base_side)
+            s.add(*self._div_side())
             s.add(gz >= 0 if sign < 0 else gz <= 0)
             if s.check() != z3.unsat:
                 raise sym.Inconclusive("sign of generator argument %s not implied by the input bounds" % name)
@@ -208,6 +209,28 @@ class ExpGens:
         self.ib.append((tz, c, s))
         return S(c), S(s)
 
+    # quotient variables of vf.sym (q with q*b == a) ------------------------------
+    @staticmethod
+    def _div_side():
+        return list(sym.div_axioms()) if hasattr(sym, "div_axioms") else []
+
+    @staticmethod
+    def _expand_divs(expr):
+        """replace vf.sym's quotient variables by true quotients (only for the numeric guess)"""
+        divs = getattr(sym, "_DIVS", {})
+        if not divs:
+            return expr
+        sub = []
+        for q, ax in divs.values():
+            eq = ax.arg(0)                      # q*b == a
+            sub.append((q, eq.arg(1) / eq.arg(0).arg(1)))
+        for _ in range(6):
+            new = z3.substitute(expr, *sub)
+            if new.eq(expr):
+                break
+            expr = new
+        return expr
+
     def __enter__(self):
         self._old = _HANDLER[0]
         _HANDLER[0] = self if self.inp.mode == "sym" else None
@@ -225,7 +248,9 @@ class ExpGens:
         key = (expr.get_id(), len(bases))
         if key in self.memo and self.memo[key][0].eq(expr):     # keep expr alive: ids are reused after GC
             return self.memo[key][1]
-        vs = sym.free_vars(expr, *bases)
+        xexpr = self._expand_divs(expr)
+        xbases = [self._expand_divs(b) for b in bases]
+        vs = sym.free_vars(xexpr, *xbases)
         rnd = random.Random(12345)
         cands = list(itertools.product(range(-self.rng, self.rng + 1), repeat=len(bases)))
         for _ in range(3):
@@ -237,8 +262,8 @@ class ExpGens:
                 if not z3.is_rational_value(r):
                     return None
                 return Fraction(r.numerator_as_long(), r.denominator_as_long())
-            ev = val(expr)
-            bv = [val(b) for b in bases]
+            ev = val(xexpr)
+            bv = [val(b) for b in xbases]
             if ev is None or any(b is None for b in bv):
                 cands = []
                 break
@@ -251,6 +276,7 @@ class ExpGens:
             s = z3.Solver()
             s.set("timeout", 10000)
             s.add(*self.base_side)
+            s.add(*self._div_side())
             s.add(expr != comb)
             if s.check() == z3.unsat:        # the decomposition is valid for ALL values
                 out = list(c)
